@@ -35,7 +35,13 @@ def node(uid, cell, relevant, moving):
                      [1.0, 0.0] if moving else None, Time(0.0, 0.0) if moving else None))
 
 
-def replay(beh, cfg):
+def replay(beh, cfg, drift):
+    """Property level (a mismatch): per cell the recorded units (occupants + surplus) are the relevant non-active units whose
+    position is in that cell, each once; no cell lists more occupants than the limit; the active unit and its cell; the
+    targets of the generator families partition the other relevant units, explicit-pair targets of the nearby family lie in
+    nearby cells and veto targets in the others.  Transcription level (appended to `drift', a note): the exact lists of
+    CellOcc.tla (order, who is surplus, which cells own a surplus list)."""
+    exact = True
     ncells, layers, maxocc, relevant, nunits = cfg["ncells"], cfg["layers"], cfg["maxocc"], set(cfg["relevant"]), cfg["nunits"]
     setting.reset()
     HypercuboidSetting(beta=1.0, dimension=2, system_lengths=[float(ncells), 1.0])
@@ -72,9 +78,15 @@ def replay(beh, cfg):
         act = list(occ.yield_active_cells())
         got_act = (act[0][1][0], cidx[act[0][0]]) if act else (-1, -1)
         want = (obs["occ"], obs["surplus"], sorted(obs["keys"]), (obs["activeId"], obs["activeCell"]))
-        if (got_occ, got_sur, got_keys, got_act) != want:
+        got_sets = [sorted(o + x) for o, x in zip(got_occ, got_sur)]
+        want_sets = [sorted(o + x) for o, x in zip(obs["occ"], obs["surplus"])]
+        if got_sets != want_sets or got_act != want[3] or (maxocc > 0 and any(len(o) > maxocc for o in got_occ)):
             return dict(step=step, what="occupancy bookkeeping after %s differs from CellOcc.tla" % op["name"],
                         got=[got_occ, got_sur, got_keys, got_act], want=want, op=op)
+        if exact and (got_occ, got_sur, got_keys) != want[:3]:
+            drift.append(dict(step=step, what="same units per cell, but lists differ from CellOcc.tla's after " + op["name"],
+                              got=[got_occ, got_sur, got_keys], want=want[:3]))
+            exact = False
         if op["name"] == "finish" or not act:
             continue
         # ---- partition through the real generators
@@ -87,9 +99,14 @@ def replay(beh, cfg):
         veto_v = sorted(x for v in veto_cells.values() for x in v)
         cv = list(CellVetoTagger.yield_identifiers_send_event_time(ns, []))
         cb = list(CellBoundaryTagger.yield_identifiers_send_event_time(ns, []))
-        if (near, sur, veto_b, veto_v) != (sorted(obs["near"]), sorted(obs["sur"]), sorted(obs["veto"]), sorted(obs["veto"])):
+        vcells = {c for c, _ in obs["vetoCells"]}
+        if (veto_b != veto_v or any(cell_of[u] in vcells for u in near) or any(cell_of[u] not in vcells for u in veto_b)):
             return dict(step=step, what="targets of the cell-based tagger families differ from CellOcc.tla's partition",
                         got=[near, sur, veto_b, veto_v], want=[obs["near"], obs["sur"], obs["veto"]], op=op)
+        if exact and (near, sur, veto_b) != (sorted(obs["near"]), sorted(obs["sur"]), sorted(obs["veto"])):
+            drift.append(dict(step=step, what="families treat the units in another split than CellOcc.tla (still a partition)",
+                              got=[near, sur, veto_b], want=[obs["near"], obs["sur"], obs["veto"]]))
+            exact = False
         if any(t[0] != a for t in bounding) or cv != [(a,)] or cb != [(a,)]:
             return dict(step=step, what="cell-veto / cell-boundary / cell-bounding generators do not start from the active unit",
                         got=[bounding, cv, cb])
@@ -101,21 +118,24 @@ def replay(beh, cfg):
 
 def main():
     spec = json.load(open(sys.argv[1]))
-    fails, steps, kinds = [], 0, {}
+    fails, steps, kinds, drifts = [], 0, {}, []
     surplus_seen = 0
     for idx, beh in enumerate(spec["behaviours"]):
         steps += len(beh["steps"])
         for o in beh["steps"]:
             kinds[o["op"]["name"]] = kinds.get(o["op"]["name"], 0) + 1
             surplus_seen += 1 if o["keys"] else 0
-        r = replay(beh, spec)
+        drift = []
+        r = replay(beh, spec, drift)
+        if drift and len(drifts) < 3:
+            drifts.append(dict(behaviour=idx, **drift[0]))
         if r is not None:
             r["behaviour"] = idx
             fails.append(r)
             if len(fails) >= 5:
                 break
     setting.reset()
-    json.dump(dict(behaviours=len(spec["behaviours"]), steps=steps, kinds=kinds, fails=fails, surplus_steps=surplus_seen),
+    json.dump(dict(behaviours=len(spec["behaviours"]), steps=steps, kinds=kinds, fails=fails, surplus_steps=surplus_seen, drift=drifts),
               sys.stdout)
 
 
